@@ -31,6 +31,7 @@ type deferred struct {
 }
 
 type Frame struct {
+	callPos   token.Pos // position of the call instruction in the caller
 	fn        *ssa.Function
 	env       map[ssa.Value]Value
 	defers    []deferred
@@ -97,6 +98,9 @@ type Exec struct {
 	callLog   []string
 	feasMemo  map[string]bool
 	regexMemo map[string]*rxProg
+	curPos    token.Pos
+	tm        *threadMode
+	bmcThreads []bmcThread
 	sess      *Session
 	pendingModel map[string]uint64
 	pendingFor   *Term
@@ -157,6 +161,7 @@ func (ex *Exec) resetPath(prefix []int) {
 	ex.ghostT = map[string]types.Type{}
 	ex.callLog = nil
 	ex.curFrame = nil
+	ex.bmcThreads = nil
 }
 
 // RunPath executes the harness function along the given decision prefix.
@@ -360,6 +365,7 @@ func (ex *Exec) choose(conds []*Term) int {
 		d := ex.decisions[ex.decIdx]
 		ex.decIdx++
 		ex.addPC(conds[d])
+		ex.tmDecision(conds[d], d)
 		return d
 	}
 	first := -1
@@ -386,6 +392,7 @@ func (ex *Exec) choose(conds []*Term) int {
 	ex.decisions = append(append([]int{}, ex.decisions[:ex.decIdx]...), first)
 	ex.decIdx++
 	ex.addPC(conds[first])
+	ex.tmDecision(conds[first], first)
 	return first
 }
 
@@ -425,7 +432,9 @@ func (ex *Exec) concInt(t *Term, what string) int {
 	if ex.decIdx < len(ex.decisions) {
 		v := ex.decisions[ex.decIdx]
 		ex.decIdx++
-		ex.addPC(ex.tb.Eq(t, ex.tb.BV(t.W, uint64(int64(v)))))
+		c := ex.tb.Eq(t, ex.tb.BV(t.W, uint64(int64(v))))
+		ex.addPC(c)
+		ex.tmDecision(c, v)
 		return v
 	}
 	var vals []int
@@ -459,11 +468,20 @@ func (ex *Exec) concInt(t *Term, what string) int {
 	}
 	ex.decisions = append(append([]int{}, ex.decisions[:ex.decIdx]...), vals[0])
 	ex.decIdx++
-	ex.addPC(ex.tb.Eq(t, ex.tb.BV(t.W, uint64(int64(vals[0])))))
+	c0 := ex.tb.Eq(t, ex.tb.BV(t.W, uint64(int64(vals[0]))))
+	ex.addPC(c0)
+	ex.tmDecision(c0, vals[0])
 	return vals[0]
 }
 
 func (ex *Exec) freshVar(name string, w int) *Term {
+	if ex.inThread() {
+		// per thread and program position (see tmVar)
+		key := ex.tmPosKey() + "/" + name
+		n := ex.tm.posCount[key]
+		ex.tm.posCount[key] = n + 1
+		return ex.tb.Var(fmt.Sprintf("%s.%s#%d", ex.tm.name, key, n), w)
+	}
 	n := ex.varCount[name]
 	ex.varCount[name] = n + 1
 	if n > 0 {
@@ -497,7 +515,7 @@ func (ex *Exec) callFunction(fn *ssa.Function, args []Value, bind []Value) (ret 
 	if ex.depth > 200 {
 		panic(unsupported("call depth > 200 (recursion?) at " + fn.String()))
 	}
-	fr := &Frame{fn: fn, env: make(map[ssa.Value]Value, 32), visits: map[int]int{}, caller: ex.curFrame}
+	fr := &Frame{fn: fn, env: make(map[ssa.Value]Value, 32), visits: map[int]int{}, caller: ex.curFrame, callPos: ex.curPos}
 	ex.curFrame = fr
 	defer func() { ex.depth--; ex.curFrame = fr.caller }()
 	for i, p := range fn.Params {
@@ -667,6 +685,9 @@ func (ex *Exec) runBlock(fr *Frame, block, prev *ssa.BasicBlock) (*ssa.BasicBloc
 		}
 		if ex.abort != nil && ex.steps&63 == 0 && atomic.LoadInt32(ex.abort) != 0 {
 			panic(pathEnd{"aborted"})
+		}
+		if p := ins.Pos(); p.IsValid() {
+			ex.curPos = p
 		}
 		switch ins := ins.(type) {
 		case *ssa.Phi, *ssa.DebugRef:
@@ -841,6 +862,9 @@ func (ex *Exec) navigate(p *Pointer) (container *Value, last *PathEl, parent Val
 	if p.IsNil() {
 		ex.goPanicf("nil pointer dereference")
 	}
+	if p.Code != nil {
+		panic(unsupported("dereference of a pointer that was read from shared memory (thread mode)"))
+	}
 	cur := &p.Obj.Val
 	for i := range p.Path {
 		el := &p.Path[i]
@@ -874,7 +898,9 @@ func (ex *Exec) load(p *Pointer) Value {
 		}
 		return ex.muxRead(arr, symEl.Sym, 0, len(arr))
 	}
-	ex.onAccess(p, false)
+	if ex.inThread() && ex.isSharedObj(p.Obj) {
+		return ex.tmLoad(p, *cur, ex.curPos)
+	}
 	return copyValue(*cur)
 }
 
@@ -896,7 +922,13 @@ func (ex *Exec) store(p *Pointer, v Value) {
 		}
 		return
 	}
-	ex.onAccess(p, true)
+	if ex.inThread() && ex.isSharedObj(p.Obj) {
+		ex.tmStore(p, *cur, v, ex.curPos)
+		if !ex.tm.mutableKnown {
+			*cur = copyValue(v) // first pass only: keep the thread's own view coherent
+		}
+		return
+	}
 	*cur = copyValue(v)
 }
 
@@ -944,7 +976,7 @@ func (ex *Exec) noteAlloc(n *Term) {
 	}
 }
 
-func (ex *Exec) onAccess(p *Pointer, write bool) {}
+
 
 func (ex *Exec) unop(fr *Frame, ins *ssa.UnOp) Value {
 	x := ex.get(fr, ins.X)
@@ -1404,6 +1436,9 @@ func (ex *Exec) valEq(x, y Value) *Term {
 		return ex.strEq(a, y.(*StringV))
 	case *Pointer:
 		b := y.(*Pointer)
+		if a.Code != nil || b.Code != nil {
+			return tb.Eq(ex.ptrCode(a), ex.ptrCode(b))
+		}
 		if a.IsNil() || b.IsNil() {
 			return tb.Bool(a.IsNil() && b.IsNil())
 		}
@@ -1433,12 +1468,22 @@ func (ex *Exec) valEq(x, y Value) *Term {
 		return tb.Bool(a.M == b.M)
 	case *ChanV:
 		b := y.(*ChanV)
+		if a.Sym != nil || b.Sym != nil {
+			return tb.Eq(ex.chanCode(a), ex.chanCode(b))
+		}
 		return tb.Bool(a.C == b.C)
 	case *FuncV:
 		b := y.(*FuncV)
 		return tb.Bool(a.Fn == nil && a.Intr == "" && b.Fn == nil && b.Intr == "")
 	case *SliceV:
 		b := y.(*SliceV)
+		// slices are only comparable with nil
+		if a.NilIf != nil && b.Arr == nil && b.NilIf == nil {
+			return a.NilIf
+		}
+		if b.NilIf != nil && a.Arr == nil && a.NilIf == nil {
+			return b.NilIf
+		}
 		return tb.Bool(a.Arr == nil && b.Arr == nil)
 	case StructV:
 		b := y.(StructV)
@@ -1716,6 +1761,15 @@ func (ex *Exec) invoke(fv *FuncV, args []Value, fr *Frame) Value {
 	if h, ok := ex.hooks[name]; ok && !ex.inHook[name] {
 		ex.inHook[name] = true
 		defer func() { ex.inHook[name] = false }()
+		if ex.inThread() {
+			// environment stubs execute atomically
+			ex.tmEvent(&Event{Kind: "atomic-begin", Name: h.Name()})
+			ex.tm.atomic++
+			defer func() {
+				ex.tm.atomic--
+				ex.tmEvent(&Event{Kind: "atomic-end", Name: h.Name()})
+			}()
+		}
 		return ex.callFunction(h, args, nil)
 	}
 	if fn.Synthetic != "" && fn.Blocks != nil {
@@ -1749,11 +1803,20 @@ func (ex *Exec) spawn(fv *FuncV, args []Value, fr *Frame) {
 // ---------- channels (sequential mode) ----------
 
 func (ex *Exec) makeChan(n int) *ChanV {
+	if ex.inThread() {
+		return ex.tmMakeChan(n)
+	}
 	ex.nextChan++
 	return &ChanV{C: &ChanObj{ID: ex.nextChan, Cap: n}}
 }
 
 func (ex *Exec) chanSend(c *ChanV, v Value) {
+	if ex.inThread() {
+		var vals []*Term
+		ex.flatten(v, &vals)
+		ex.tmEvent(&Event{Kind: "send", Ch: ex.chanCode(c), Vals: vals, Pos: ex.curPos})
+		return
+	}
 	if c.C == nil {
 		panic(pathEnd{"blocked: send on nil channel"})
 	}
@@ -1770,6 +1833,12 @@ func (ex *Exec) chanSend(c *ChanV, v Value) {
 }
 
 func (ex *Exec) chanRecv(c *ChanV, t types.Type) (Value, *Term) {
+	if ex.inThread() {
+		var vars []*Term
+		v := ex.freshOfType(t, &vars)
+		ex.tmEvent(&Event{Kind: "recv", Ch: ex.chanCode(c), Vars: vars, Pos: ex.curPos})
+		return v, ex.tb.True
+	}
 	if c.C == nil {
 		panic(pathEnd{"blocked: receive on nil channel"})
 	}
